@@ -40,11 +40,11 @@ DOCS = ["index", "a", "sub", "sub/b", "sub/a", "sub/deep/c"]  # note: document "
 
 def anchor_written(doc):
     """The heading anchor as a link writes it (the slug keeps '_'); the section id docutils assigns differs ('_' -> '-')."""
-    return "sub_heading-" + doc.replace("/", "-")
+    return "sub_heading-" + doc.replace("/", "-") + "-\u00fc"  # non-ASCII: percent-encoded by markdown-it in the link destination
 
 
 def anchor_id(doc):
-    return "sub-heading-" + doc.replace("/", "-")
+    return "sub-heading-" + doc.replace("/", "-") + "-u"  # docutils' make_id transliterates
 
 
 def setup():
@@ -83,7 +83,7 @@ def project(c):
     src = c.pick(DOCS)
     dst = c.pick([d for d in DOCS if d != src])
     titles = {d: "Title %s" % d.replace("/", " ") for d in DOCS}
-    spelling = c.pick(["rel", "dot-rel", "abs", "noext", "project", "project-abs", "label", "label-missing", "missing-doc", "path-file", "rel-file", "anchor", "anchor-missing", "project-anchor", "self-anchor"])
+    spelling = c.pick(["rel", "dot-rel", "abs", "noext", "project", "project-abs", "label", "label-missing", "missing-doc", "path-file", "rel-file", "anchor", "anchor-missing", "project-anchor", "self-anchor", "dup-anchor", "path-file-image"])
     explicit = bool(c.choose(2))
     srcdir = posixpath.dirname(src)
     rel = posixpath.normpath(posixpath.join(posixpath.relpath(posixpath.dirname(dst) or ".", srcdir or "."), posixpath.basename(dst)))
@@ -113,12 +113,19 @@ def project(c):
     elif spelling == "path-file":
         dest = "path:" + posixpath.relpath("assets/data.txt", srcdir or ".")
         kind = "file"
+    elif spelling == "path-file-image":
+        dest = "path:" + posixpath.relpath("assets/data.txt", srcdir or ".")
+        kind = "file"
     elif spelling == "rel-file":
         dest = posixpath.relpath("assets/data.txt", srcdir or ".")
         kind = "file"
     elif spelling == "anchor":
         dest = rel + ".md#" + anchor_written(dst)
         anchor = anchor_id(dst)
+    elif spelling == "dup-anchor":
+        # the third of three headings with the same title: slug 'notes-2'
+        dest = rel + ".md#notes-2"
+        anchor = "<third Notes heading>"
     elif spelling == "anchor-missing":
         dest = rel + ".md#no-such-anchor"
         kind = "missing-anchor"
@@ -130,7 +137,11 @@ def project(c):
         dst = src
         anchor = anchor_id(src)
     auto = spelling.startswith("project") or spelling == "path-file"
-    if auto and not explicit:
+    if spelling == "path-file-image":
+        # the link text is an image with empty alt text: it has no plain text, but it is explicit content
+        md = "[![](assets-logo.png)](%s)" % dest
+        explicit = False
+    elif auto and not explicit:
         md = "<%s>" % dest
     else:
         md = "[%s](%s)" % ("my *text*" if explicit else "", dest)
@@ -147,7 +158,7 @@ def write_project(d, spec):
         p = os.path.join(d, doc + ".md")
         os.makedirs(os.path.dirname(p), exist_ok=True)
         tag = doc.replace("/", "-")
-        lines = ["(Lbl-%s)=" % tag, "# %s" % spec["titles"][doc], "", "para", "", "## Sub_heading %s" % tag, "", "text", ""]
+        lines = ["(Lbl-%s)=" % tag, "# %s" % spec["titles"][doc], "", "para", "", "## Sub_heading %s \u00fc" % tag, "", "text", "", "## Notes", "", "n1", "", "## Notes", "", "n2", "", "## Notes", "", "n3", ""]
         if doc == spec["src"]:
             lines += ["LINK " + spec["md"], ""]
         if doc == "index":
@@ -169,13 +180,15 @@ def build_and_resolve(spec, real=False):
             app.build()
             build_warnings = warn.getvalue()  # resolving the doctree again below would report unresolved links a second time
             tree = app.env.get_and_resolve_doctree(spec["src"], app.builder)
+            dst_tree = app.env.get_doctree(spec["dst"]) if spec["dst"] in app.env.all_docs else None
+            spec["notes_ids"] = [sec["ids"][0] for sec in dst_tree.findall(nodes.section) if sec[0].astext() == "Notes"] if dst_tree is not None else []
         out = []
         for p in tree.findall(nodes.paragraph):
             if p.astext().startswith("LINK"):
                 for n in p.findall():
                     if isinstance(n, nodes.reference) or n.tagname in ("download_reference", "pending_xref"):
                         out.append(dict(tag=n.tagname, refuri=n.get("refuri"), refid=n.get("refid"), text=n.astext(), filename=n.get("filename"), reftarget=n.get("reftarget"),
-                                        internal=n.get("internal")))
+                                        internal=n.get("internal"), has_image=any(isinstance(x_, nodes.image) for x_ in n.findall())))
                 break
         return out, build_warnings
 
@@ -207,12 +220,16 @@ def check(refs, warn, spec):
             ok = base == exp
         if not ok:
             return ("wrong-uri", "link %r in %s -> %r, expected %s (+anchor)" % (spec["md"], spec["src"], got, exp))
-        if spec["anchor"] is not None and frag != spec["anchor"] and r["refid"] != spec["anchor"]:
+        if spec["anchor"] == "<third Notes heading>":
+            want_id = spec["notes_ids"][2] if len(spec.get("notes_ids", [])) == 3 else None
+            if want_id is None or (frag != want_id and r["refid"] != want_id):
+                return ("wrong-anchor", "link %r -> %r (refid %r), expected the id of the third 'Notes' section %r" % (spec["md"], got, r["refid"], want_id))
+        elif spec["anchor"] is not None and frag != spec["anchor"] and r["refid"] != spec["anchor"]:
             return ("wrong-anchor", "link %r -> %r (refid %r), expected fragment %r" % (spec["md"], got, r["refid"], spec["anchor"]))
         if kind == "label" and frag != "lbl-" + spec["dst"].replace("/", "-"):
             return ("wrong-anchor", "label link %r -> %r" % (spec["md"], got))
         if not spec["explicit"]:
-            want = title if spec["anchor"] is None else "Sub_heading " + spec["dst"].replace("/", "-")
+            want = title if spec["anchor"] is None else "Notes" if spec["anchor"] == "<third Notes heading>" else "Sub_heading " + spec["dst"].replace("/", "-") + " \u00fc"
             if r["text"] != want:
                 return ("implicit-text", "link %r shows %r, expected the target title %r" % (spec["md"], r["text"], want))
         if nmiss:
@@ -222,7 +239,9 @@ def check(refs, warn, spec):
             return ("file-link", "link %r to a non-document file became %r" % (spec["md"], r))
         if r["tag"] == "download_reference" and (not r["filename"] or not posixpath.normpath(r["reftarget"] or "").endswith("assets/data.txt")):
             return ("file-link", "link %r: download target %r, collected file %r (expected assets/data.txt)" % (spec["md"], r["reftarget"], r["filename"]))
-        if nmiss or "not readable" in warn:
+        if spec["spelling"] == "path-file-image" and not r.get("has_image"):
+            return ("link-content-lost", "link %r: the image that is the link's content is gone (%r)" % (spec["md"], r))
+        if nmiss or "not readable" in warn.replace("image file not readable", ""):
             return ("spurious-warning", "file link %r produced a warning: %r" % (spec["md"], warn[:300]))
     else:
         if nmiss != 1:
@@ -265,7 +284,7 @@ def make(eng):
 
 
 def families(tier, seed):
-    F = [Family("projects", make, "6 documents at depths 0-2 (a sub-directory document sharing its name with a root document; heading anchors whose slug differs from the section id); (source, destination) pairs x 15 link spellings x explicit/empty text (900 projects, one real Sphinx html build each)", nontrivial="crossdir",
+    F = [Family("projects", make, "6 documents at depths 0-2 (a sub-directory document sharing its name with a root document; heading anchors whose slug differs from the section id); (source, destination) pairs x 17 link spellings x explicit/empty text (900 projects, one real Sphinx html build each)", nontrivial="crossdir",
                 max_forks=100000, required=True)]
     return F
 
